@@ -254,6 +254,9 @@ def navigate(x, path):
     return x
 
 
+DTYPES = {'float': float, 'int': int, 'bool': bool, 'float32': np.float32, 'str': str, 'object': object}
+DTYPE_POOL = ['float', 'float', 'float', 'int', 'bool', 'float32', 'str']
+
 ATTR_SHAPES = ['list', 'dict', 'nested-list', 'tuple-of-lists', 'namedtuple-with-dict', 'tuple-of-ndarray',
                'dict-of-lists']
 Bounds = None
@@ -400,7 +403,10 @@ def apply_op(m, op, world=None):
     elif o == 'rebind':
         setattr(m, op['x'], [float(i) for i in range(op['n'])])
     elif o == 'addVariable':
-        m.add_variable(op['x'], 0.0)
+        if op.get('dtype'):
+            m.add_variable(op['x'], 0.0, dtype=DTYPES[op['dtype']])
+        else:
+            m.add_variable(op['x'], 0.0)
     elif o == 'addAttrImm':
         if op.get('via') == 'setattr':
             setattr(m, op['x'], op['v'])
@@ -455,12 +461,13 @@ class RealWorld:
         elif c == 'new':
             cls = self.classes[cmd['cls']]
             span = range(cmd['span']['range']) if 'range' in cmd['span'] else list(cmd['span']['list'])
+            kw = {'dtype': DTYPES[cmd['dtype']]} if cmd.get('dtype') and issubclass(cls, ModelInterface) else {}
             if 'sub' in cmd and cmd['sub'] is not None:
-                self.roots[cmd['r']] = cls(self.roots[cmd['sub']])
+                self.roots[cmd['r']] = cls(self.roots[cmd['sub']], **kw)
             elif issubclass(cls, BaseLinker):
-                self.roots[cmd['r']] = cls()
+                self.roots[cmd['r']] = cls(**kw)
             else:
-                self.roots[cmd['r']] = cls(span)
+                self.roots[cmd['r']] = cls(span, **kw)
         elif c == 'dict':
             self.roots[cmd['r']] = {k: self.roots[r] for k, r in cmd['entries']}
         elif c == 'copy':
